@@ -149,7 +149,21 @@ def finish(meta, sd, prop, var):
     for f in os.listdir(sd):
         shutil.copy(os.path.join(sd, f), os.path.join(out, f))
     meta["needs_to_manifest"] = "see README.md (written by the seeding agent)"
-    json.dump(meta, open(os.path.join(out, "meta.json"), "w"), indent=1)
+    mp = os.path.join(out, "meta.json")
+    if os.path.exists(mp):   # keep notes and the results of checks not re-run this time
+        try:
+            old = json.load(open(mp))
+            for k in ("strengthened", "needs_to_manifest", "after_fix", "detected_by_before_strengthening"):
+                if k in old and (k not in meta or k == "needs_to_manifest" and not old[k].startswith("see README")):
+                    meta[k] = old[k]
+            det = dict(old.get("detected_by") or {})
+            det.update(meta.get("detected_by") or {})
+            meta["detected_by"] = det
+            if "confirmed" in old and "note" in old["confirmed"]:
+                meta.setdefault("confirmed", {}).setdefault("note", old["confirmed"]["note"])
+        except Exception:
+            pass
+    json.dump(meta, open(mp, "w"), indent=1)
     print(json.dumps(meta["confirmed"]))
 
 
